@@ -468,6 +468,37 @@ example : serverFirst [114, 61, 97, 98, 44, 105, 61, 49] = .returns := by decide
 open XmppModel.ScramLoop in
 example : serverFirst [1] = .loops := by decide
 
+/-! ## Round E: channel waits of the ROOT package on the serve goroutine (the response slot)
+
+`handleInputStream` hands a response to the request that waits for it and then waits until the
+requester has closed it.  The hand-over must have an alternative exit (the requester's context:
+it ends whenever `sendResp` returns, so a requester that gives up at any moment releases the
+serve loop); the wait behind it is a `handshake`: a receive from the channel the select case has
+just sent on - the requester accepted the response in a rendezvous, so it exists and owes the
+`Close` (an obligation of the helpers, exercised by the watchdog runs; not proved).  The
+operations reachable from `(*Session).Serve` are regenerated with the same classifier as for
+the handler packages; no names consumed.  A plain send / receive with no alternative (the
+check-then-act rewrite `if ctx.Err() == nil { c <- v; <-c }`) is `blocking` and refused: in the
+terms of the wait-for model it is a resource of both sides (`C09_blocking_channel_wait_wedges`). -/
+
+def rootChanKindOk (k : String) : Bool := chanKindOk k || k == "handshake"
+
+def rootServeChanOpsOk : Option (List (String × String)) → Bool
+  | some l => l.any (fun o => o.1 == "send" && o.2 == "escape") &&
+      l.any (fun o => o.1 == "recv" && o.2 == "handshake") && l.all fun o => rootChanKindOk o.2
+  | none => false
+
+/-- Every channel operation the root package can perform on the serve goroutine has an
+alternative exit or is the acknowledged half of a hand-over that had one; the hand-over and its
+handshake were found.  Re-decided on every run. -/
+theorem C09_root_serve_channel_waits_escape :
+    rootServeChanOpsOk XmppModel.Generated.C09.rootServeChanOps = true := by
+  decide +kernel
+
+-- the check-then-act rewrite of the hand-over
+example : rootServeChanOpsOk (some [("recv", "default"), ("send", "blocking"), ("recv", "blocking")]) = false := by decide
+example : rootServeChanOpsOk (some [("send", "escape"), ("recv", "handshake"), ("recv", "escape")]) = true := by decide
+
 /-! ## Round E: the unbounded line-splitting loops of form/form.go (`Submit` of a peer's form)
 
 A form decoded from a peer's reply (muc.GetConfig, a command payload, …) is sent back with
